@@ -9,6 +9,11 @@ def run(patch, ids):
         repo = os.path.join(tmp, 'repo'); vd = os.path.join(tmp, 'verif')
         subprocess.check_call(['rsync', '-a', '--exclude', 'target', '--exclude', '.git', '/repo/', repo + '/'])
         os.makedirs(vd); shutil.copy(os.path.join(VERIF, 'known_findings.json'), vd); shutil.copytree(os.path.join(VERIF, 'refdata'), os.path.join(vd, 'refdata'))
+        if patch.endswith('.gz'):
+            import gzip
+            plain = os.path.join(tmp, 'patch.diff')
+            open(plain, 'wb').write(gzip.open(patch).read())
+            patch = plain
         if subprocess.run(['patch', '-p1', '-s', '-i', patch], cwd=repo).returncode != 0:
             return None
         env = dict(os.environ, VERIF_REPO=repo, VERIF_DIR=vd)
@@ -29,10 +34,10 @@ def main():
     m = json.load(open(os.path.join(VERIF, 'MANIFEST.json')))
     ids = [c['property_id'] for c in m['checks']]
     out = {}
-    pats = sorted(glob.glob(os.path.join(VERIF, 'seeded/*/patch.diff'))) + sorted(glob.glob(os.path.join(VERIF, 'selftest/reverts/*.diff')))
+    pats = sorted(glob.glob(os.path.join(VERIF, 'seeded/*/patch.diff')) + glob.glob(os.path.join(VERIF, 'seeded/*/patch.diff.gz'))) + sorted(glob.glob(os.path.join(VERIF, 'selftest/reverts/*.diff')))
     from concurrent.futures import ThreadPoolExecutor
     def name_of(p):
-        return os.path.basename(os.path.dirname(p)) if p.endswith('patch.diff') else 'revert-' + os.path.basename(p)[:7]
+        return os.path.basename(os.path.dirname(p)) if (p.endswith('patch.diff') or p.endswith('patch.diff.gz')) else 'revert-' + os.path.basename(p)[:7]
     def one(p):
         c = run(p, ids)
         print(name_of(p), '->', 'PATCH FAILED' if c is None else (c if c else 'NOT CAUGHT'), flush=True)
